@@ -90,7 +90,7 @@ LEVEL = {
             'S_{k+1} = fst (apply_spec b_k S_k) for a successful batch, S_k otherwise, which is the timeline the running check '
             'judges against -- a cold cache agrees with the index of the final version and the warm registered cache agrees with it '
             'in every calm schedule (no commit while a read transaction is open, no removal of the manager entry while it is '
-            'write-locked; c09_evict_stale_refuted shows the warm cache stale otherwise: finding F6 of C08 / C11); '
+            'write-locked; c09_evict_stale_refuted_v0 shows the warm cache stale otherwise for the manager before fix 2d185e4: finding F6 of C08 / C11, repaired; the model keeps the pinned commit step, a superset of the repaired behaviour); '
             '(c09_serial_safe) in schedules whose transactions do not overlap no search crashes or fails spuriously: every outcome '
             'equals the sequential answer on the reader\'s snapshot; (c09_inside_write_window) the forced schedules of the check: '
             'in ANY state (reachable or not) in which the writer is stopped inside its write transaction -- the registered cache '
